@@ -3,7 +3,7 @@
    freshly built graph has; membership = reachability over the current bases (+ the root). *)
 From Coq Require Import List Arith Bool Lia.
 Import ListNotations.
-From ZI Require Import Model.Ro Model.SpecGraph.
+From ZI Require Import Model.Ro Model.SpecGraph Spec.SpecGraph.
 
 (* ------------------------------------------------------------------ basics *)
 Lemma mem_In x l : mem x l = true <-> In x l.
@@ -34,10 +34,6 @@ Proof.
 Qed.
 
 (* ------------------------------------------------------------------ reachability and ranks *)
-Inductive reach (g : graph) : node -> node -> Prop :=
-| reach_base x b : In b (bases g x) -> reach g x b
-| reach_step x b t : In b (bases g x) -> reach g b t -> reach g x t.
-
 Lemma reach_trans g x y z : reach g x y -> reach g y z -> reach g x z.
 Proof. induction 1; intros; eauto using reach. Qed.
 
@@ -468,7 +464,7 @@ Lemma unsub_fold x l : forall dp, (forall S, deps_pos (dp S)) ->
   (forall S, deps_pos (dp' S)) /\
   (forall S D, dep_total D (dp' S) = dep_total D (dp S) - (if Nat.eqb D x then count_occ Nat.eq_dec l S else 0)).
 Proof.
-  induction l as [|b l IH]; intros dp Hp; cbn [fold_left].
+  unfold node in *. induction l as [|b l IH]; intros dp Hp; cbn [fold_left].
   - split; auto. intros S D. cbn. destruct (Nat.eqb D x); lia.
   - set (dp1 := unsubscribe x b dp).
     assert (Hp1 : forall S, deps_pos (dp1 S)).
@@ -485,7 +481,7 @@ Lemma sub_fold x l : forall dp, (forall S, deps_pos (dp S)) ->
   (forall S, deps_pos (dp' S)) /\
   (forall S D, dep_total D (dp' S) = dep_total D (dp S) + (if Nat.eqb D x then count_occ Nat.eq_dec l S else 0)).
 Proof.
-  induction l as [|b l IH]; intros dp Hp; cbn [fold_left].
+  unfold node in *. induction l as [|b l IH]; intros dp Hp; cbn [fold_left].
   - split; auto. intros S D. cbn. destruct (Nat.eqb D x); lia.
   - set (dp1 := subscribe x b dp).
     assert (Hp1 : forall S, deps_pos (dp1 S)).
@@ -509,6 +505,514 @@ Proof.
     { intros S. unfold dp1, upd. destruct (Nat.eqb S b); auto. now apply deps_pos_remove. }
     destruct (IH dp1 Hp1) as [A B]. split; auto. intros S D. rewrite B.
     unfold dp1, upd. destruct (Nat.eqb S b) eqn:E; cbn.
-    + rewrite dep_total_remove. destruct (Nat.eqb D x); cbn; auto. now destruct (mem S l).
+    + apply Nat.eqb_eq in E. subst b. rewrite dep_total_remove. destruct (Nat.eqb D x); cbn; auto. now destruct (mem S l).
     + reflexivity.
+Qed.
+
+(* ------------------------------------------------------------------ the propagation *)
+Lemma fold_left_inv {A B} (F : A -> B -> A) (P : A -> Prop) l :
+  (forall s d, In d l -> P s -> P (F s d)) -> forall s, P s -> P (fold_left F l s).
+Proof.
+  induction l as [|d l IH]; cbn; intros H s Hs; [exact Hs|].
+  apply IH.
+  - intros s0 d0 H0 P0. apply H; auto.
+  - apply H; auto.
+Qed.
+
+(* [y] is [x] or one of its descendants *)
+Definition desc (g : graph) (x y : node) : Prop := y = x \/ reach g y x.
+
+Lemma desc_base g d b y : In b (bases g y) -> desc g d b -> desc g d y.
+Proof.
+  intros Hb [->|K]; right; [now apply reach_base | eapply reach_step; eauto].
+Qed.
+
+Lemma lc_transfer g c c' y : c' y = c y -> (forall b, In b (bases g y) -> c' b = c b) ->
+  lc_at g c y -> lc_at g c' y.
+Proof.
+  unfold lc_at. intros E Eb H. rewrite E, H. apply calc_ext. intros b Hb. symmetry. auto.
+Qed.
+
+Section Changed.
+  Variable reorder : list node -> list node.
+  Hypothesis reorder_In : forall l y, In y (reorder l) <-> In y l.
+
+  Definition same_shape (s s' : state) : Prop :=
+    live s' = live s /\ gr s' = gr s /\ isif s' = isif s /\ deps s' = deps s.
+
+  Lemma same_shape_refl s : same_shape s s.
+  Proof. unfold same_shape; auto. Qed.
+
+  Lemma same_shape_trans a b c : same_shape a b -> same_shape b c -> same_shape a c.
+  Proof. unfold same_shape. intros [? [? [? ?]]] [? [? [? ?]]]. repeat split; congruence. Qed.
+
+  Lemma recompute_shape x s : same_shape s (recompute x s).
+  Proof. unfold same_shape, recompute; cbn; auto. Qed.
+
+  Lemma changed_shape f : forall x s, same_shape s (changed reorder f x s).
+  Proof.
+    induction f as [|f IH]; intros x s; cbn [changed]; [apply same_shape_refl|].
+    apply fold_left_inv with (P := same_shape s).
+    - intros s0 d _ H. eapply same_shape_trans; eauto.
+    - apply recompute_shape.
+  Qed.
+
+  Lemma changed_implied f : forall x s, (forall y, implied s y = sro s y) ->
+    forall y, implied (changed reorder f x s) y = sro (changed reorder f x s) y.
+  Proof.
+    induction f as [|f IH]; intros x s H; cbn [changed]; auto.
+    apply fold_left_inv with (P := fun s0 => forall y, implied s0 y = sro s0 y).
+    - intros s0 d _ H0. now apply IH.
+    - intros y. unfold recompute; cbn. unfold upd. destruct (Nat.eqb y x); auto.
+  Qed.
+
+  Variable g : graph.
+  Variable r : node -> nat.
+  Variable N : nat.
+  Variable dp : node -> deps_t.
+  Hypothesis Hrank : ranked g r.
+  Hypothesis Hbound : forall y, r y <= N.
+  Hypothesis Hpos : forall S, deps_pos (dp S).
+  Hypothesis Hcomplete : forall S D, dep_total D (dp S) = count_occ Nat.eq_dec (bases g D) S.
+
+  Lemma dependents_are x d : In d (reorder (dep_keys (dp x))) <-> In x (bases g d).
+  Proof.
+    rewrite reorder_In, dep_keys_total by auto. rewrite Hcomplete.
+    rewrite (count_occ_In Nat.eq_dec). unfold gt. tauto.
+  Qed.
+
+  Lemma changed_spec f : forall x s, gr s = g -> deps s = dp -> N - r x < f ->
+    let s' := changed reorder f x s in
+    (forall y, ~ desc g x y -> sro s' y = sro s y) /\
+    (forall y, desc g x y -> lc_at g (sro s') y).
+  Proof.
+    induction f as [|f IH]; intros x s Hg Hd Hf; [lia|]. cbn [changed]. cbv zeta.
+    set (s1 := recompute x s).
+    assert (Hg1 : gr s1 = g) by (unfold s1, recompute; cbn; auto).
+    assert (Hd1 : deps s1 = dp) by (unfold s1, recompute; cbn; auto).
+    rewrite Hd1.
+    (* the notification loop, for any list of dependents of x *)
+    assert (Loop : forall ds, (forall d, In d ds -> In x (bases g d)) ->
+      forall s0, gr s0 = g -> deps s0 = dp ->
+      let s' := fold_left (fun s d => changed reorder f d s) ds s0 in
+      gr s' = g /\ deps s' = dp /\
+      (forall y, (forall d, In d ds -> ~ desc g d y) -> sro s' y = sro s0 y) /\
+      (forall y, (exists d, In d ds /\ desc g d y) -> lc_at g (sro s') y)).
+    { induction ds as [|d ds IHds]; intros Hds s0 Hg0 Hd0; cbn [fold_left].
+      - repeat split; auto. intros y [d [[] _]].
+      - set (s2 := changed reorder f d s0).
+        destruct (changed_shape f d s0) as [_ [Hg2 [_ Hd2]]]. fold s2 in Hg2, Hd2.
+        assert (Hx : In x (bases g d)) by (apply Hds; now left).
+        assert (Hfd : N - r d < f).
+        { specialize (Hrank _ _ Hx). specialize (Hbound d). lia. }
+        destruct (IH d s0 Hg0 Hd0 Hfd) as [U2 L2]. fold s2 in U2, L2.
+        destruct (IHds (fun d' H' => Hds d' (or_intror H')) s2) as [Hg3 [Hd3 [U3 L3]]];
+          [congruence | congruence |].
+        repeat split; auto.
+        + intros y Hy. rewrite U3 by (intros d' H'; apply Hy; now right).
+          apply U2. apply Hy. now left.
+        + intros y [d' [Hd' Hdesc]].
+          (* is y below one of the remaining dependents? *)
+          assert (Dec : (exists d'', In d'' ds /\ desc g d'' y) \/ (forall d'', In d'' ds -> ~ desc g d'' y)).
+          { clear -Hrank. induction ds as [|a ds IHd]; [right; intros ? []|].
+            destruct (Nat.eq_dec y a) as [->|Na].
+            - left. exists a. split; [now left | now left].
+            - destruct (reach_dec g r Hrank y a) as [Ra|Ra].
+              + left. exists a. split; [now left | now right].
+              + destruct IHd as [[d'' [H1 H2]]|H].
+                * left. exists d''. split; [now right | auto].
+                * right. intros d'' [<-|H']; [intros [?|?]; auto | auto]. }
+          destruct Dec as [Ex|No]; [now apply L3|].
+          destruct Hd' as [<-|Hd']; [|exfalso; eapply No; eauto].
+          apply lc_transfer with (c := sro s2); auto.
+          intros b Hb. apply U3. intros d'' H'' K. apply (No d'' H''). eapply desc_base; eauto. }
+    assert (Hds : forall d, In d (reorder (dep_keys (dp x))) -> In x (bases g d))
+      by (intros d; apply dependents_are).
+    destruct (Loop _ Hds s1 Hg1 Hd1) as [_ [_ [U L]]].
+    assert (Unch : forall y, ~ desc g x y -> forall d, In d (reorder (dep_keys (dp x))) -> ~ desc g d y).
+    { intros y Hy d Hd' K. apply Hy. apply Hds in Hd'. destruct K as [->|K]; right.
+      - now apply reach_base.
+      - eapply reach_trans; eauto. now apply reach_base. }
+    assert (A : forall y, ~ desc g x y ->
+              sro (fold_left (fun s d => changed reorder f d s) (reorder (dep_keys (dp x))) s1) y = sro s y).
+    { intros y Hy. rewrite U by (apply Unch; auto).
+      unfold s1, recompute; cbn. apply upd_other. intros ->. apply Hy. now left. }
+    split; [exact A|].
+    intros y [->|K].
+    - (* x itself: recomputed first, never touched again, its bases are not descendants *)
+      assert (Hxx : forall d, In d (reorder (dep_keys (dp x))) -> ~ desc g d x).
+      { intros d Hd' K. apply Hds in Hd'. apply (ranked_irrefl _ _ Hrank x).
+        destruct K as [->|K]; [now apply reach_base | eapply reach_trans; eauto; now apply reach_base]. }
+      unfold lc_at. rewrite (U x Hxx). unfold s1 at 1. unfold recompute; cbn. rewrite upd_same.
+      rewrite <- Hg. apply calc_ext. intros b Hb. rewrite Hg in Hb. symmetry. apply A.
+      intros [->|K]; apply (ranked_irrefl _ _ Hrank x).
+      + now apply reach_base.
+      + eapply reach_trans; eauto. now apply reach_base.
+    - apply L. apply reach_last in K. destruct K as [d [Hd' K]].
+      exists d. split; [now apply dependents_are|]. destruct K as [->|K]; [now left | now right].
+  Qed.
+End Changed.
+
+(* ------------------------------------------------------------------ invariants of reachable states *)
+Lemma calc_frame g x bs r c y : ranked ((x, bs) :: g) r -> r y <= fuel_of g ->
+  y <> x -> ~ reach ((x, bs) :: g) y x -> calc ((x, bs) :: g) c y = calc g c y.
+Proof.
+  intros R Hr N K. unfold calc, calc_sro. rewrite bases_cons_other by auto.
+  replace (legacy_ro (fuel_of ((x, bs) :: g)) ((x, bs) :: g) y) with (legacy_ro (fuel_of g) g y); auto.
+  unfold legacy_ro. f_equal.
+  rewrite (legacy_flatten_fuel _ _ R (fuel_of ((x, bs) :: g)) (fuel_of g) y); auto.
+  - symmetry. now apply legacy_flatten_frame.
+  - unfold fuel_of in *. cbn [length]. lia.
+Qed.
+
+Record Inv (st : state) : Prop := {
+  inv_acyc : acyclicb (gr st) = true;
+  inv_pos : forall S, deps_pos (deps st S);
+  inv_deps : forall S D, dep_total D (deps st S) = count_occ Nat.eq_dec (bases (gr st) D) S;
+  inv_lc : forall y, In y (live st) -> lc_at (gr st) (sro st) y;
+  inv_closed : forall y b, In y (live st) -> In b (bases (gr st) y) -> In b (live st);
+  inv_dead : forall y, ~ In y (live st) -> bases (gr st) y = [];
+  inv_root : In root (live st) /\ bases (gr st) root = [];
+  inv_implied : forall y, implied st y = sro st y;
+  inv_keys : forall y, In y (live st) -> In y (map fst (gr st))
+}.
+
+Lemma init_inv : Inv init.
+Proof.
+  constructor; cbn.
+  - reflexivity.
+  - intros S. constructor.
+  - intros S D. destruct (Nat.eqb D root); reflexivity.
+  - intros y [<-|[]]. reflexivity.
+  - intros y b [<-|[]]. cbn. tauto.
+  - intros y H. destruct (Nat.eqb y root) eqn:E; auto.
+  - auto.
+  - auto.
+  - intros y [<-|[]]. auto.
+Qed.
+
+Section Steps.
+  Variable reorder : list node -> list node.
+  Hypothesis reorder_In : forall l y, In y (reorder l) <-> In y l.
+
+  (* what __setBases needs of the state it starts from ([x] itself need not be consistent) *)
+  Record Pre (x : node) (st : state) : Prop := {
+    pre_pos : forall S, deps_pos (deps st S);
+    pre_deps : forall S D, dep_total D (deps st S) = count_occ Nat.eq_dec (bases (gr st) D) S;
+    pre_lc : forall y, In y (live st) -> y <> x -> lc_at (gr st) (sro st) y;
+    pre_closed : forall y b, In y (live st) -> In b (bases (gr st) y) -> In b (live st);
+    pre_dead : forall y, ~ In y (live st) -> bases (gr st) y = [];
+    pre_root : In root (live st) /\ bases (gr st) root = [];
+    pre_implied : forall y, implied st y = sro st y;
+    pre_keys : forall y, In y (live st) -> y <> x -> In y (map fst (gr st))
+  }.
+
+  Lemma set_bases_inv x bs st : Pre x st -> In x (live st) -> x <> root ->
+    (forall b, In b bs -> In b (live st)) -> acyclicb ((x, bs) :: gr st) = true ->
+    Inv (set_bases reorder x bs st).
+  Proof.
+    intros P Hx Hxr Hbs Hac. unfold set_bases.
+    set (g := gr st). set (g' := (x, bs) :: g).
+    set (dp1 := fold_left (fun dp b => unsubscribe x b dp) (bases g x) (deps st)).
+    set (dp2 := fold_left (fun dp b => subscribe x b dp) bs dp1).
+    set (s0 := mkState (live st) g' (isif st) (sro st) (implied st) dp2).
+    pose proof (acyclicb_ranked _ Hac) as R. fold g' in R.
+    set (r := height (length g') g') in *.
+    assert (Hb : forall y, r y <= length g') by (intros y; apply height_le).
+    destruct (unsub_fold x (bases g x) (deps st) (pre_pos _ _ P)) as [P1 T1]. fold dp1 in P1, T1.
+    destruct (sub_fold x bs dp1 P1) as [P2 T2]. fold dp2 in P2, T2.
+    assert (C2 : forall S D, dep_total D (dp2 S) = count_occ Nat.eq_dec (bases g' D) S).
+    { intros S D. rewrite T2, T1, (pre_deps _ _ P). fold g. unfold g'.
+      destruct (Nat.eqb D x) eqn:E.
+      - apply Nat.eqb_eq in E. subst D. rewrite bases_cons_same. lia.
+      - apply Nat.eqb_neq in E. rewrite bases_cons_other by auto. lia. }
+    assert (Hf : length g' - r x < fuel_of g') by (unfold fuel_of; lia).
+    destruct (changed_spec reorder reorder_In g' r (length g') dp2 R Hb P2 C2 (fuel_of g') x s0 eq_refl eq_refl Hf)
+      as [U L].
+    pose proof (changed_shape reorder (fuel_of g') x s0) as Sh.
+    set (st' := changed reorder (fuel_of g') x s0) in *.
+    destruct Sh as [Sl [Sg [_ Sd]]].
+    change (live s0) with (live st) in Sl. change (gr s0) with g' in Sg. change (deps s0) with dp2 in Sd.
+    constructor.
+    - now rewrite Sg.
+    - now rewrite Sd.
+    - now rewrite Sd, Sg.
+    - rewrite Sl, Sg. intros y Hy.
+      assert (Dec : desc g' x y \/ ~ desc g' x y).
+      { destruct (Nat.eq_dec y x) as [->|Ny]; [left; now left|].
+        destruct (reach_dec g' r R y x); [left; now right | right; intros [?|?]; auto]. }
+      destruct Dec as [D|D]; [now apply L|].
+      assert (Ny : y <> x) by (intros ->; apply D; now left).
+      assert (Nr : ~ reach g' y x) by (intros K; apply D; now right).
+      apply lc_transfer with (c := sro st).
+      + now apply U.
+      + intros b Hbb. apply U. intros K. apply D. eapply desc_base; eauto.
+      + unfold lc_at. unfold g'. rewrite (calc_frame g x bs r (sro st) y R (Hb y) Ny Nr).
+        apply (pre_lc _ _ P); auto.
+    - rewrite Sl, Sg. intros y b Hy Hbb. unfold g' in Hbb.
+      destruct (Nat.eq_dec y x) as [->|Ny].
+      + rewrite bases_cons_same in Hbb. auto.
+      + rewrite bases_cons_other in Hbb by auto. eapply (pre_closed _ _ P); eauto.
+    - rewrite Sl, Sg. intros y Hy. unfold g'. rewrite bases_cons_other by (intros ->; auto).
+      now apply (pre_dead _ _ P).
+    - rewrite Sl, Sg. split; [apply (pre_root _ _ P)|].
+      unfold g'. rewrite bases_cons_other by auto. apply (pre_root _ _ P).
+    - apply changed_implied. cbn. apply (pre_implied _ _ P).
+    - rewrite Sl, Sg. intros y Hy. unfold g'. cbn [map fst].
+      destruct (Nat.eq_dec y x) as [->|Ny]; [now left | right; now apply (pre_keys _ _ P)].
+  Qed.
+
+  Lemma inv_pre x st : Inv st -> Pre x st.
+  Proof.
+    intros I. constructor; try apply I.
+    - intros y Hy _. now apply (inv_lc _ I).
+    - intros y Hy _. now apply (inv_keys _ I).
+  Qed.
+
+  Lemma subset_In l m : subset l m = true -> forall b, In b l -> In b m.
+  Proof. unfold subset. rewrite forallb_forall. intros H b Hb. apply mem_In. auto. Qed.
+
+  Lemma step_inv st o : Inv st -> op_ok st o = true -> Inv (step reorder st o).
+  Proof.
+    intros I Hok. destruct o as [x k bs | x bs | x]; cbn [step op_ok] in *.
+    - (* creation *)
+      apply andb_true_iff in Hok. destruct Hok as [Hok Hac].
+      apply andb_true_iff in Hok. destruct Hok as [Hfresh Hsub].
+      apply negb_true_iff, mem_false_In in Hfresh.
+      assert (Hnl : ~ In x (live st)) by (intros K; apply Hfresh; now apply (inv_keys _ I)).
+      unfold new_spec. apply set_bases_inv; cbn [live gr]; auto.
+      + constructor; cbn [live gr deps sro implied].
+        * apply I.
+        * apply I.
+        * intros y Hy Ny. apply in_app_iff in Hy. destruct Hy as [Hy|[<-|[]]]; [|congruence].
+          apply lc_transfer with (c := sro st).
+          -- now apply upd_other.
+          -- intros b Hb. apply upd_other. intros ->. apply Hnl. eapply (inv_closed _ I); eauto.
+          -- now apply (inv_lc _ I).
+        * intros y b Hy Hb. apply in_app_iff in Hy. apply in_app_iff. left.
+          destruct Hy as [Hy|[<-|[]]]; [eapply (inv_closed _ I); eauto|].
+          rewrite (inv_dead _ I x Hnl) in Hb. destruct Hb.
+        * intros y Hy. apply (inv_dead _ I). intros K. apply Hy. apply in_app_iff. now left.
+        * split; [apply in_app_iff; left|]; apply (inv_root _ I).
+        * intros y. unfold upd. destruct (Nat.eqb y x); auto. apply I.
+        * intros y Hy Ny. apply in_app_iff in Hy. destruct Hy as [Hy|[<-|[]]]; [|congruence].
+          now apply (inv_keys _ I).
+      + apply in_app_iff. right. now left.
+      + intros ->. apply Hnl. apply (inv_root _ I).
+      + intros b Hb. apply in_app_iff. left. eapply subset_In; eauto.
+    - (* __bases__ assignment *)
+      apply andb_true_iff in Hok. destruct Hok as [Hok Hac].
+      apply andb_true_iff in Hok. destruct Hok as [Hok Hsub].
+      apply andb_true_iff in Hok. destruct Hok as [Hl Hr].
+      apply mem_In in Hl. apply negb_true_iff, Nat.eqb_neq in Hr.
+      apply set_bases_inv; auto.
+      + now apply inv_pre.
+      + intros b Hb. eapply subset_In; eauto.
+    - (* death of a leaf *)
+      apply andb_true_iff in Hok. destruct Hok as [Hok Hac].
+      apply andb_true_iff in Hok. destruct Hok as [Hok Hleaf].
+      apply andb_true_iff in Hok. destruct Hok as [Hl Hr].
+      apply mem_In in Hl. apply negb_true_iff, Nat.eqb_neq in Hr.
+      assert (Hnb : forall y, ~ In x (bases (gr st) y)).
+      { intros y. destruct (in_dec Nat.eq_dec y (live st)) as [Hy|Hy].
+        - rewrite forallb_forall in Hleaf. specialize (Hleaf _ Hy).
+          now apply negb_true_iff, mem_false_In in Hleaf.
+        - rewrite (inv_dead _ I y Hy). tauto. }
+      unfold drop.
+      set (g := gr st). set (g' := (x, []) :: g).
+      pose proof (acyclicb_ranked _ Hac) as R. fold g g' in R.
+      set (r := height (length g') g') in *.
+      assert (Hb : forall y, r y <= length g') by (intros y; apply height_le).
+      assert (Hnr : forall y, ~ reach g' y x).
+      { intros y K. apply reach_last in K. destruct K as [d [Hd _]]. unfold g' in Hd.
+        destruct (Nat.eq_dec d x) as [->|Nd].
+        - rewrite bases_cons_same in Hd. destruct Hd.
+        - rewrite bases_cons_other in Hd by auto. eapply Hnb; eauto. }
+      destruct (remove_fold x (bases g x) (deps st) (inv_pos _ I)) as [P1 T1].
+      assert (Lf : forall y, In y (filter (fun y => negb (Nat.eqb y x)) (live st)) <-> In y (live st) /\ y <> x).
+      { intros y. rewrite filter_In, negb_true_iff, Nat.eqb_neq. tauto. }
+      constructor; cbn [live gr deps sro implied].
+      + exact Hac.
+      + exact P1.
+      + intros S D. rewrite T1, (inv_deps _ I). fold g. unfold g'.
+        destruct (Nat.eqb D x) eqn:E; cbn [andb].
+        * apply Nat.eqb_eq in E. subst D. rewrite bases_cons_same. cbn.
+          destruct (mem S (bases g x)) eqn:M; auto.
+          apply mem_false_In in M. now apply count_occ_not_In.
+        * apply Nat.eqb_neq in E. now rewrite bases_cons_other.
+      + intros y Hy. apply Lf in Hy. destruct Hy as [Hy Ny]. unfold lc_at. fold g'. unfold g'.
+        rewrite (calc_frame g x [] r (sro st) y R (Hb y) Ny (Hnr y)).
+        now apply (inv_lc _ I).
+      + intros y b Hy Hbb. apply Lf in Hy. destruct Hy as [Hy Ny]. fold g' in Hbb. unfold g' in Hbb.
+        rewrite bases_cons_other in Hbb by auto. apply Lf. split.
+        * eapply (inv_closed _ I); eauto.
+        * intros ->. eapply Hnb; eauto.
+      + intros y Hy. fold g'. unfold g'. destruct (Nat.eq_dec y x) as [->|Ny].
+        * apply bases_cons_same.
+        * rewrite bases_cons_other by auto. apply (inv_dead _ I). intros K. apply Hy. apply Lf. auto.
+      + split.
+        * apply Lf. split; [apply (inv_root _ I) | auto].
+        * fold g'. unfold g'. rewrite bases_cons_other by auto. apply (inv_root _ I).
+      + apply I.
+      + intros y Hy. apply Lf in Hy. destruct Hy as [Hy Ny]. cbn [map fst]. right. now apply (inv_keys _ I).
+  Qed.
+
+  Lemma hist_inv ops : forall st, Inv st -> hist_ok reorder st ops = true ->
+    Inv (fold_left (step reorder) ops st).
+  Proof.
+    induction ops as [|o ops IH]; intros st I H; cbn in *; auto.
+    apply andb_true_iff in H. destruct H as [H1 H2]. apply IH; auto. now apply step_inv.
+  Qed.
+End Steps.
+
+(* ------------------------------------------------------------------ what an invariant state answers *)
+Lemma inv_rank st : Inv st ->
+  let g := gr st in let r := height (length g) g in
+  ranked g r /\ (forall x, r x <= fuel_of g).
+Proof.
+  intros I g r. split; [apply acyclicb_ranked, I|].
+  intros x. pose proof (height_le (length g) g x). unfold fuel_of, r. lia.
+Qed.
+
+Lemma inv_members st : Inv st -> forall S T, In S (live st) ->
+  (In T (sro st S) <-> T = S \/ reach (gr st) S T \/ T = root).
+Proof.
+  intros I S T HS. destruct (inv_rank st I) as [R B].
+  eapply (lc_members (gr st) _ (sro st) (fun y => In y (live st)) R B).
+  - apply (inv_root _ I).
+  - intros y b; apply (inv_closed _ I).
+  - apply (inv_lc _ I).
+  - exact HS.
+  - apply Nat.lt_succ_diag_r.
+Qed.
+
+Lemma inv_coherent st : Inv st -> forall S, In S (live st) ->
+  sro st S = fresh_sro (fuel_of (gr st)) root (gr st) S.
+Proof.
+  intros I S HS. destruct (inv_rank st I) as [R B].
+  eapply (lc_fresh (gr st) _ (sro st) (fun y => In y (live st)) R B).
+  - intros y b; apply (inv_closed _ I).
+  - apply (inv_lc _ I).
+  - exact HS.
+  - pose proof (height_le (length (gr st)) (gr st) S). unfold fuel_of. lia.
+Qed.
+
+Lemma acyclic_fresh_fuel g : acyclicb g = true -> forall f x, fuel_of g <= f ->
+  fresh_sro f root g x = fresh_sro (fuel_of g) root g x.
+Proof.
+  intros H f x Hf. pose proof (acyclicb_ranked _ H) as R.
+  pose proof (height_le (length g) g x).
+  apply (fresh_sro_fuel g _ R); unfold fuel_of in *; lia.
+Qed.
+
+Lemma acyclicb_sound_lemma g : acyclicb g = true -> forall x, ~ reach g x x.
+Proof. intros H. eapply ranked_irrefl. apply acyclicb_ranked; eauto. Qed.
+
+Section History.
+  Variable reorder : list node -> list node.
+  Hypothesis reorder_In : forall l y, In y (reorder l) <-> In y l.
+  Variable ops : list op.
+  Hypothesis Hok : hist_ok reorder init ops = true.
+  Let st := fold_left (step reorder) ops init.
+
+  Lemma reachable_inv : Inv st.
+  Proof. apply hist_inv; auto. apply init_inv. Qed.
+
+  Lemma implied_iff_reachable_lemma S T : In S (live st) ->
+    (isOrExtends st S T = true <-> T = S \/ reach (gr st) S T \/ T = root).
+  Proof.
+    intros HS. unfold isOrExtends. rewrite mem_In, (inv_implied _ reachable_inv).
+    now apply inv_members; [apply reachable_inv|].
+  Qed.
+
+  Lemma extends_strict_lemma S T : In S (live st) ->
+    (extends st S T true = true <-> T <> S /\ (reach (gr st) S T \/ T = root)).
+  Proof.
+    intros HS. unfold extends. cbn [negb orb]. rewrite andb_true_iff, negb_true_iff, Nat.eqb_neq.
+    fold (isOrExtends st S T). rewrite (implied_iff_reachable_lemma S T HS).
+    split; [intros [[?|?] ?]; split; auto; congruence | intros [? ?]; split; auto].
+  Qed.
+
+  Lemma sro_members_lemma S T : In S (live st) ->
+    (In T (get_sro st S) <-> T = S \/ reach (gr st) S T \/ T = root).
+  Proof. intros HS. apply inv_members; auto. apply reachable_inv. Qed.
+
+  Lemma sro_coherent_lemma S : In S (live st) ->
+    get_sro st S = fresh_sro (fuel_of (gr st)) root (gr st) S.
+  Proof. intros HS. apply inv_coherent; auto. apply reachable_inv. Qed.
+
+  Lemma fresh_fuel_lemma S f : fuel_of (gr st) <= f ->
+    fresh_sro f root (gr st) S = fresh_sro (fuel_of (gr st)) root (gr st) S.
+  Proof. apply acyclic_fresh_fuel. apply reachable_inv. Qed.
+
+  Lemma iro_lemma S : In S (live st) ->
+    get_iro st S = filter (isif st) (fresh_sro (fuel_of (gr st)) root (gr st) S).
+  Proof. intros HS. unfold get_iro. now rewrite <- sro_coherent_lemma. Qed.
+
+  Lemma dependents_complete_lemma S D :
+    dep_total D (deps st S) = count_occ Nat.eq_dec (get_bases st D) S.
+  Proof. apply (inv_deps _ reachable_inv). Qed.
+
+  Lemma dependents_listed_lemma S D : In D (dep_keys (deps st S)) <-> In S (get_bases st D).
+  Proof.
+    rewrite dep_keys_total by apply (inv_pos _ reachable_inv).
+    rewrite dependents_complete_lemma, (count_occ_In Nat.eq_dec). unfold gt. tauto.
+  Qed.
+End History.
+
+Lemma extends_nonstrict_lemma st S T : extends st S T false = isOrExtends st S T.
+Proof. unfold extends, isOrExtends. cbn. apply andb_true_r. Qed.
+
+(* the shape of the world (who is live, the bases) does not depend on the notification order *)
+Lemma set_bases_shape r1 r2 x bs s1 s2 : live s1 = live s2 -> gr s1 = gr s2 ->
+  live (set_bases r1 x bs s1) = live (set_bases r2 x bs s2) /\
+  gr (set_bases r1 x bs s1) = gr (set_bases r2 x bs s2).
+Proof.
+  intros El Eg. unfold set_bases.
+  match goal with |- live (changed r1 ?f ?x ?a) = live (changed r2 ?f' ?x' ?b) /\ _ =>
+    destruct (changed_shape r1 f x a) as [A1 [A2 _]]; destruct (changed_shape r2 f' x' b) as [B1 [B2 _]] end.
+  cbn [live gr] in *. split; congruence.
+Qed.
+
+Lemma step_shape r1 r2 o s1 s2 : live s1 = live s2 -> gr s1 = gr s2 ->
+  live (step r1 s1 o) = live (step r2 s2 o) /\ gr (step r1 s1 o) = gr (step r2 s2 o).
+Proof.
+  intros El Eg. destruct o as [x k bs | x bs | x]; cbn [step].
+  - unfold new_spec. apply set_bases_shape; cbn [live gr]; congruence.
+  - now apply set_bases_shape.
+  - unfold drop; cbn [live gr]. split; congruence.
+Qed.
+
+Lemma op_ok_shape o s1 s2 : live s1 = live s2 -> gr s1 = gr s2 -> op_ok s1 o = op_ok s2 o.
+Proof. intros El Eg. destruct o; cbn [op_ok]; now rewrite El, Eg. Qed.
+
+Lemma hist_shape r1 r2 ops : forall s1 s2, live s1 = live s2 -> gr s1 = gr s2 ->
+  hist_ok r1 s1 ops = hist_ok r2 s2 ops /\
+  live (fold_left (step r1) ops s1) = live (fold_left (step r2) ops s2) /\
+  gr (fold_left (step r1) ops s1) = gr (fold_left (step r2) ops s2).
+Proof.
+  induction ops as [|o ops IH]; intros s1 s2 El Eg; cbn [hist_ok fold_left]; auto.
+  destruct (step_shape r1 r2 o s1 s2 El Eg) as [El' Eg'].
+  destruct (IH _ _ El' Eg') as [A [B C]]. rewrite (op_ok_shape o s1 s2 El Eg), A. auto.
+Qed.
+
+Lemma order_irrelevant_lemma r1 r2 ops :
+  (forall l y, In y (r1 l) <-> In y l) -> (forall l y, In y (r2 l) <-> In y l) ->
+  hist_ok r1 init ops = true ->
+  let st1 := fold_left (step r1) ops init in
+  let st2 := fold_left (step r2) ops init in
+  hist_ok r2 init ops = true /\ live st1 = live st2 /\ gr st1 = gr st2 /\
+  forall S, In S (live st1) -> sro st1 S = sro st2 S /\ implied st1 S = implied st2 S.
+Proof.
+  intros H1 H2 Hok st1 st2.
+  destruct (hist_shape r1 r2 ops init init eq_refl eq_refl) as [A [B C]].
+  fold st1 st2 in B, C. rewrite Hok in A. symmetry in A.
+  assert (E : forall S, In S (live st1) -> sro st1 S = sro st2 S).
+  { intros S H. pose proof (sro_coherent_lemma r1 H1 ops Hok S H) as E1.
+    assert (H' : In S (live (fold_left (step r2) ops init))) by (fold st2; now rewrite <- B).
+    pose proof (sro_coherent_lemma r2 H2 ops A S H') as E2.
+    unfold get_sro in E1, E2. fold st1 in E1. fold st2 in E2. rewrite E1, E2. now rewrite C. }
+  repeat split; auto.
+  pose proof (reachable_inv r1 H1 ops Hok) as I1. pose proof (reachable_inv r2 H2 ops A) as I2.
+  fold st1 in I1. fold st2 in I2. rewrite (inv_implied _ I1), (inv_implied _ I2). auto.
 Qed.
